@@ -175,4 +175,377 @@ theorem emitMatchR_spec (C : Cfg) (src : Array UInt8) (ok : CfgOK C src) (st : S
         have e : C.s + (ip + mc + 4 + 1) = C.s + (ip + mc + 4) + 1 := by omega
         rw [e]; exact hti2
 
+theorem stepR_last (C : Cfg) (src : Array UInt8) (st st' : St) (h : stepR C src st = .last st') : st' = st := by
+  unfold stepR at h
+  dsimp only at h
+  by_cases hf : st.fin = true
+  · rw [if_pos hf] at h; injection h with h; exact h.symm
+  · rw [if_neg hf] at h
+    cases hp : st.pending with
+    | some m =>
+      rw [hp] at h
+      dsimp only at h
+      unfold emitMatchR at h
+      dsimp only at h
+      split at h
+      · cases h
+      · split at h
+        · cases h
+        · split at h <;> cases h
+    | none =>
+      rw [hp] at h
+      dsimp only at h
+      cases hs : searchR C src (src.size - LZ4V.Gen.MFLIMIT + 1) (src.size + 1) st.ip 1 (C.P.accel <<< LZ4V.Gen.LZ4_skipTrigger) st.tbl with
+      | none => rw [hs] at h; injection h with h; exact h.symm
+      | some r =>
+        obtain ⟨ip, m, tbl⟩ := r
+        rw [hs] at h
+        dsimp only at h
+        split at h
+        · cases h
+        · unfold emitMatchR at h
+          dsimp only at h
+          split at h
+          · cases h
+          · split at h
+            · cases h
+            · split at h <;> cases h
+
+theorem stepR_seq (C : Cfg) (src : Array UInt8) (ok : CfgOK C src) (hn : 13 ≤ src.size)
+    (st : St) (s : PSeq) (st' : St) (hi : InvR C src st) (h : stepR C src st = .seq s st') : EmittedR C src st.anchor s st' := by
+  obtain ⟨i1, i2, i3⟩ := hi
+  unfold stepR at h
+  dsimp only at h
+  by_cases hf : st.fin = true
+  · rw [if_pos hf] at h; cases h
+  · rw [if_neg hf] at h
+    cases hp : st.pending with
+    | some m =>
+      rw [hp] at h i3
+      dsimp only at h i3
+      obtain ⟨p1, p2, p3, p4, p5, p6⟩ := i3
+      rw [p6]
+      exact emitMatchR_spec C src ok st st.ip m (st.op + 1) st.ip 0 s st' h rfl p2 (fun _ => p3) 0 (eq4_spec src st.ip m (by
+        unfold eq4 at p4 ⊢
+        simp only [Bool.and_eq_true, beq_iff_eq] at p4 ⊢
+        obtain ⟨⟨⟨q0, q1⟩, q2⟩, q3⟩ := p4
+        exact ⟨⟨⟨q0.symm, q1.symm⟩, q2.symm⟩, q3.symm⟩)) (by omega) p1
+    | none =>
+      rw [hp] at h i3
+      dsimp only at h i3
+      have c1 : LZ4V.Gen.MFLIMIT = 12 := rfl
+      have c6 : LZ4V.Gen.LZ4_skipTrigger = 6 := rfl
+      cases hs : searchR C src (src.size - LZ4V.Gen.MFLIMIT + 1) (src.size + 1) st.ip 1 (C.P.accel <<< LZ4V.Gen.LZ4_skipTrigger) st.tbl with
+      | none => rw [hs] at h; cases h
+      | some r =>
+        obtain ⟨ip, m, tbl⟩ := r
+        rw [hs] at h
+        dsimp only at h
+        have hnb : 64 ≤ C.P.accel <<< LZ4V.Gen.LZ4_skipTrigger := by
+          rw [c6, Nat.shiftLeft_eq]
+          have h64 : (2 : Nat) ^ 6 = 64 := by decide
+          have hacc := ok.ha
+          rw [h64]; omega
+        obtain ⟨s1, s2, s3, s4, s5, s6⟩ := searchR_spec C src ok _ (by rw [c1]; omega) _ _ _ _ _ ip m tbl hs i3 (Nat.le_refl 1) hnb
+        rw [c1] at s2
+        obtain ⟨d, d1, d2, d3, d4⟩ := catchUp_spec src st.anchor src.size ip m 4 (by omega) s3 (eq4_spec src ip m (by
+          unfold eq4 at s5 ⊢
+          simp only [Bool.and_eq_true, beq_iff_eq] at s5 ⊢
+          obtain ⟨⟨⟨q0, q1⟩, q2⟩, q3⟩ := s5
+          exact ⟨⟨⟨q0.symm, q1.symm⟩, q2.symm⟩, q3.symm⟩))
+        generalize hc : catchUp src st.anchor src.size ip m = c at h d1 d2 d3 d4
+        split at h
+        · cases h
+        · exact emitMatchR_spec C src ok _ c.1 c.2 _ st.anchor (c.1 - st.anchor) s st' h (by omega) (by omega)
+            (fun hbb => by have := s4 hbb; omega) d d4 (by omega) (by
+              have e : C.s + c.1 + d + 1 = C.s + ip + 1 := by omega
+              rw [e]; exact s6)
+
+/-- every table a state can hold has all its entries below `s + n` -/
+theorem InvR_tbl (C : Cfg) (src : Array UInt8) (st : St) (hi : InvR C src st) (hip : st.ip + 1 ≤ src.size ∨ st.pending = none ∧ st.ip ≤ src.size) :
+    TI st.tbl (C.s + src.size) := by
+  obtain ⟨_, _, i3⟩ := hi
+  cases hp : st.pending with
+  | none =>
+    rw [hp] at i3
+    dsimp only at i3
+    rcases hip with h | h
+    · exact i3.mono (by omega)
+    · exact i3.mono (by omega)
+  | some m =>
+    rw [hp] at i3
+    dsimp only at i3
+    exact i3.1.mono (by omega)
+
+theorem emitMatchR_ip (C : Cfg) (src : Array UInt8) (st : St) (ip m op a ll : Nat) (s : PSeq) (st' : St)
+    (h : emitMatchR C src st ip m op a ll = .seq s st') : st'.ip ≤ st'.anchor + 1 := by
+  unfold emitMatchR at h
+  dsimp only at h
+  split at h
+  · cases h
+  · split at h
+    · injection h with _ h2; subst h2; dsimp only; omega
+    · split at h
+      · injection h with _ h2; subst h2; dsimp only; omega
+      · injection h with _ h2; subst h2; dsimp only; omega
+
+theorem stepR_ip (C : Cfg) (src : Array UInt8) (st : St) (s : PSeq) (st' : St) (h : stepR C src st = .seq s st') : st'.ip ≤ st'.anchor + 1 := by
+  unfold stepR at h
+  dsimp only at h
+  split at h
+  · cases h
+  · cases hp : st.pending with
+    | some m => rw [hp] at h; dsimp only at h; exact emitMatchR_ip C src _ _ _ _ _ _ s st' h
+    | none =>
+      rw [hp] at h
+      dsimp only at h
+      cases hs : searchR C src (src.size - LZ4V.Gen.MFLIMIT + 1) (src.size + 1) st.ip 1 (C.P.accel <<< LZ4V.Gen.LZ4_skipTrigger) st.tbl with
+      | none => rw [hs] at h; cases h
+      | some r =>
+        obtain ⟨ip, m, tbl⟩ := r
+        rw [hs] at h
+        dsimp only at h
+        split at h
+        · cases h
+        · exact emitMatchR_ip C src _ _ _ _ _ _ s st' h
+
+/-- the loop: the returned table has all entries below `s + n` (also when the call gives up); a returned list tiles the input -/
+theorem runR_spec (C : Cfg) (src : Array UInt8) (ok : CfgOK C src) (hn : 13 ≤ src.size) :
+    ∀ (fuel : Nat) (st : St) (acc : List PSeq), InvR C src st → st.ip ≤ st.anchor + 1 → st.anchor + 2 ≤ src.size →
+    TI (runR C src fuel st acc).2 (C.s + src.size) ∧
+    (∀ l stf, (runR C src fuel st acc).1 = some (l, stf) → ∃ l', l = acc.reverse ++ l' ∧ PV src st.anchor l' stf.anchor ∧ stf.anchor ≤ src.size ∧
+      (∀ s ∈ l', 4 ≤ s.ml ∧ 1 ≤ s.off ∧ s.off ≤ 65535 ∧ s.lit + s.ll + 12 ≤ src.size) ∧ (l' ≠ [] → stf.anchor + 5 ≤ src.size)) := by
+  intro fuel
+  induction fuel with
+  | zero =>
+    intro st acc hi h1 h2
+    simp only [runR]
+    refine ⟨InvR_tbl C src st hi (Or.inl (by omega)), ?_⟩
+    intro l stf h
+    simp only [Option.some.injEq, Prod.mk.injEq] at h
+    obtain ⟨rfl, rfl⟩ := h
+    exact ⟨[], by simp, rfl, hi.2.1, (fun s hs => by cases hs), (fun h => absurd rfl h)⟩
+  | succ f ih =>
+    intro st acc hi h1 h2
+    unfold runR
+    cases hs : stepR C src st with
+    | fail =>
+      dsimp only
+      exact ⟨InvR_tbl C src st hi (Or.inl (by omega)), fun l stf h => by cases h⟩
+    | last st1 =>
+      dsimp only
+      have := stepR_last C src st st1 hs
+      subst this
+      refine ⟨InvR_tbl C src st1 hi (Or.inl (by omega)), ?_⟩
+      intro l stf h
+      simp only [Option.some.injEq, Prod.mk.injEq] at h
+      obtain ⟨rfl, rfl⟩ := h
+      exact ⟨[], by simp, rfl, hi.2.1, (fun s hs => by cases hs), (fun h => absurd rfl h)⟩
+    | seq s st1 =>
+      dsimp only
+      obtain ⟨e1, e2, e3, e4, e5, e6, e7⟩ := stepR_seq C src ok hn st s st1 hi hs
+      have hip := stepR_ip C src st s st1 hs
+      obtain ⟨r1, r2⟩ := ih st1 (s :: acc) e5 hip (by omega)
+      refine ⟨r1, ?_⟩
+      intro l stf h
+      obtain ⟨l', q1, q2, q3, q4, q5⟩ := r2 l stf h
+      refine ⟨s :: l', by rw [q1]; simp [List.reverse_cons, List.append_assoc], ⟨e1, by rw [← e4]; exact q2⟩, q3, ?_, ?_⟩
+      · intro x hx
+        rcases List.mem_cons.mp hx with rfl | hx'
+        · exact ⟨e2, e1.2.1, e3, by rw [e1.1]; exact e7⟩
+        · exact q4 x hx'
+      · intro _
+        by_cases hl1 : l' = []
+        · subst hl1
+          have : stf.anchor = st1.anchor := by
+            have := q2
+            simp only [PV] at this
+            exact this.symm
+          omega
+        · exact q5 hl1
+
+/-! ## the state between calls -/
+
+def J (S : RState) : Prop := (∀ i, S.tbl.getD i 0 ≤ S.currentOffset) ∧ (S.tableType = .cleared → S.currentOffset = 0)
+
+theorem replicate_getD (k i : Nat) : (Array.replicate k (0 : Nat)).getD i 0 = 0 := by
+  rw [Array.getD_eq_getD_getElem?, Array.getElem?_replicate]
+  split <;> rfl
+
+theorem prepareTable_spec (S : RState) (n : Nat) (byU16 : Bool) (hJ : J S) (hn16 : byU16 = true → n < 65547) (hn32 : byU16 = false → 4096 ≤ n) :
+    J (prepareTable S n byU16) ∧ (byU16 = true → (prepareTable S n byU16).currentOffset + n < 65548) ∧
+    (byU16 = false → (prepareTable S n byU16).currentOffset = 0) := by
+  obtain ⟨j1, j2⟩ := hJ
+  have k4 : LZ4V.Gen.KB4 = 4096 := rfl
+  unfold prepareTable
+  dsimp only
+  by_cases hreset : S.tableType ≠ .cleared ∧ (S.tableType ≠ (if byU16 = true then TType.byU16 else TType.byU32) ∨ (byU16 = true ∧ S.currentOffset + n ≥ 0xFFFF) ∨ (byU16 = false ∧ S.currentOffset > LZ4V.Gen.GB1) ∨ n ≥ LZ4V.Gen.KB4)
+  · rw [if_pos hreset]
+    dsimp only
+    rw [if_neg (by simp)]
+    exact ⟨⟨fun i => by dsimp only; rw [replicate_getD]; omega, fun _ => rfl⟩, fun hb => by dsimp only; have := hn16 hb; omega, fun _ => rfl⟩
+  · rw [if_neg hreset]
+    by_cases hcl : S.tableType = .cleared
+    · rw [if_pos hcl]
+      have hco := j2 hcl
+      dsimp only
+      rw [if_neg (by rw [hco]; simp)]
+      exact ⟨⟨fun i => by dsimp only; rw [replicate_getD]; omega, fun _ => hco⟩, fun hb => by dsimp only; have := hn16 hb; omega, fun _ => hco⟩
+    · rw [if_neg hcl]
+      -- kept: same type, small input, indexes still fit
+      have hkeep : ¬ (S.tableType ≠ (if byU16 = true then TType.byU16 else TType.byU32) ∨ (byU16 = true ∧ S.currentOffset + n ≥ 0xFFFF) ∨ (byU16 = false ∧ S.currentOffset > LZ4V.Gen.GB1) ∨ n ≥ LZ4V.Gen.KB4) :=
+        fun h => hreset ⟨hcl, h⟩
+      have hn4 : ¬ n ≥ 4096 := fun h => hkeep (Or.inr (Or.inr (Or.inr (by rw [k4]; exact h))))
+      cases hb : byU16 with
+      | false => exact absurd (hn32 hb) hn4
+      | true =>
+        rw [if_neg (by simp)]
+        have h16 : ¬ (S.currentOffset + n ≥ 0xFFFF) := fun h => hkeep (Or.inr (Or.inl ⟨hb, h⟩))
+        exact ⟨⟨j1, fun h => absurd h hcl⟩, fun _ => by omega, fun h => by cases h⟩
+
+theorem decode_literal_only (l : List UInt8) : decode [] (serialize [] l) = some l :=
+  roundtrip [] [] l l (fun s hs => by cases hs) (by simp [ValidParse])
+
+/-- **one call on a reused state**: whatever the state holds (`J`), a returned block decodes ALONE to the input, and `J` holds again -/
+theorem call_spec (hashOf : Array UInt8 → Bool → Nat → Nat) (S : RState) (src : Array UInt8) (acceleration : Int) (cap bound : Nat) (hJ : J S) :
+    J (call hashOf S src acceleration cap bound).1 ∧
+    (∀ blk, (call hashOf S src acceleration cap bound).2 = some blk → decode [] blk = some src.toList) := by
+  have c64 : LZ4V.Gen.LZ4_64Klimit = 65547 := rfl
+  have c13 : LZ4V.Gen.LZ4_minLength = 13 := rfl
+  have hn16 : decide (src.size < LZ4V.Gen.LZ4_64Klimit) = true → src.size < 65547 := by intro h; simpa [c64] using h
+  have hn32 : decide (src.size < LZ4V.Gen.LZ4_64Klimit) = false → 4096 ≤ src.size := by intro h; simp [c64] at h; omega
+  obtain ⟨pj, p16, p32⟩ := prepareTable_spec S src.size (decide (src.size < LZ4V.Gen.LZ4_64Klimit)) hJ hn16 hn32
+  unfold call
+  dsimp only
+  generalize hS1 : prepareTable S src.size (decide (src.size < LZ4V.Gen.LZ4_64Klimit)) = S1 at pj p16 p32
+  by_cases hmax : src.size > LZ4V.Gen.LZ4_MAX_INPUT_SIZE
+  · rw [if_pos hmax]; exact ⟨pj, fun blk h => by cases h⟩
+  rw [if_neg hmax]
+  by_cases h0 : src.size = 0
+  · rw [if_pos h0]
+    refine ⟨pj, ?_⟩
+    intro blk h
+    dsimp only at h
+    split at h
+    · cases h
+    · simp only [Option.some.injEq] at h
+      subst h
+      have : src.toList = [] := by
+        apply List.eq_nil_of_length_eq_zero; rw [Array.length_toList]; exact h0
+      rw [this]
+      exact decode_literal_only []
+  rw [if_neg h0]
+  have hJ2 : ∀ tbl : Array Nat, TI tbl (S1.currentOffset + src.size) →
+      J { S1 with currentOffset := S1.currentOffset + src.size, tableType := if decide (src.size < LZ4V.Gen.LZ4_64Klimit) = true then TType.byU16 else TType.byU32, tbl := tbl } := by
+    intro tbl h
+    refine ⟨fun i => by have := h i; dsimp only; omega, ?_⟩
+    intro hc
+    dsimp only at hc
+    split at hc <;> cases hc
+  by_cases hmin : src.size < LZ4V.Gen.LZ4_minLength
+  · rw [if_pos hmin]
+    refine ⟨?_, ?_⟩
+    · have := hJ2 S1.tbl (fun i => by have := pj.1 i; omega)
+      exact this
+    · intro blk h
+      dsimp only at h
+      split at h
+      · cases h
+      · simp only [Option.some.injEq] at h
+        subst h
+        exact decode_literal_only _
+  rw [if_neg hmin]
+  rw [c13] at hmin
+  -- the configuration of this call
+  generalize hP : ({ fastParams src acceleration cap bound with hash := hashOf src (decide (src.size < LZ4V.Gen.LZ4_64Klimit)) } : Params) = P
+  have hPb : P.byU16 = decide (src.size < LZ4V.Gen.LZ4_64Klimit) := by rw [← hP]; rfl
+  have hPa : 1 ≤ P.accel := by rw [← hP]; exact fastParams_accel src acceleration cap bound
+  have hPh : hashOf src (decide (src.size < LZ4V.Gen.LZ4_64Klimit)) = P.hash := by rw [← hP]
+  rw [hPh]
+  have ok : CfgOK { P := P, s := S1.currentOffset, small := decide (src.size < LZ4V.Gen.LZ4_64Klimit) && decide (S1.currentOffset ≠ 0) } src := by
+    refine ⟨?_, ?_, ?_, hPa⟩
+    · intro h; dsimp only at h; rw [hPb] at h; exact hn16 h
+    · intro h; dsimp only at h ⊢; rw [hPb] at h; exact p16 h
+    · intro h
+      dsimp only at h ⊢
+      cases hb : decide (src.size < LZ4V.Gen.LZ4_64Klimit) with
+      | false => exact p32 hb
+      | true =>
+        rw [hb] at h
+        simpa using h
+  have hst0 : store (decide (src.size < LZ4V.Gen.LZ4_64Klimit)) S1.currentOffset = S1.currentOffset := by
+    have := store_eq _ src ok 0 (by omega)
+    dsimp only at this
+    rw [hPb, Nat.add_zero] at this
+    exact this
+  rw [hst0]
+  have hinv : InvR { P := P, s := S1.currentOffset, small := decide (src.size < LZ4V.Gen.LZ4_64Klimit) && decide (S1.currentOffset ≠ 0) } src
+      { anchor := 0, ip := 1, tbl := S1.tbl.setIfInBounds (P.hash 0) S1.currentOffset, op := 0 } := by
+    refine ⟨by dsimp only; omega, by dsimp only; omega, ?_⟩
+    dsimp only
+    exact (show TI S1.tbl (S1.currentOffset + 1) from fun i => by have := pj.1 i; omega).set _ _ (by omega)
+  obtain ⟨rt, rl⟩ := runR_spec _ src ok (by omega) (src.size + 1) _ [] hinv (by dsimp only; omega) (by dsimp only; omega)
+  dsimp only at rt rl
+  generalize hrun : runR { P := P, s := S1.currentOffset, small := decide (src.size < LZ4V.Gen.LZ4_64Klimit) && decide (S1.currentOffset ≠ 0) } src (src.size + 1)
+      { anchor := 0, ip := 1, tbl := S1.tbl.setIfInBounds (P.hash 0) S1.currentOffset, op := 0 } [] = r at rt rl
+  obtain ⟨ro, rtbl⟩ := r
+  dsimp only at rt rl
+  cases ro with
+  | none =>
+    exact ⟨hJ2 rtbl rt, fun blk h => by cases h⟩
+  | some v =>
+    obtain ⟨l, stf⟩ := v
+    refine ⟨hJ2 rtbl rt, ?_⟩
+    intro blk h
+    by_cases hov : over P (stf.op + (src.size - stf.anchor) + 1 + (src.size - stf.anchor + 255 - 15) / 255) = true
+    · have h' : (none : Option (List UInt8)) = some blk := by
+        have := h
+        simp only [hov, ↓reduceIte] at this
+        exact this
+      cases h'
+    · have h' : some (serialize (List.map (toSeq src) l) (src.extract stf.anchor src.size).toList) = some blk := by
+        have := h
+        simp only [hov, Bool.false_eq_true, ↓reduceIte] at this
+        exact this
+      simp only [Option.some.injEq] at h'
+      subst h'
+      obtain ⟨l', q1, q2, q3, q4, _⟩ := rl l stf rfl
+      simp only [List.reverse_nil, List.nil_append] at q1
+      subst q1
+      have hlast : (src.extract stf.anchor src.size).toList = src.toList.drop stf.anchor := by
+        simp only [Array.toList_extract, List.extract]
+        rw [List.take_of_length_le]
+        rw [List.length_drop, Array.length_toList]
+        omega
+      have hv := PV_valid src l 0 stf.anchor q2 (by omega) q3
+      simp only [List.take_zero] at hv
+      rw [hlast]
+      exact roundtrip [] _ _ _ (fun s hs => by
+        obtain ⟨x, hx, rfl⟩ := List.mem_map.mp hs
+        obtain ⟨a1, _, a3, _⟩ := q4 x hx
+        exact ⟨a1, by show x.off < 65536; omega⟩) (by simpa using hv)
+
+/-- **any history of reuse**: for every sequence of `_fastReset` calls on one state (any inputs, sizes, capacities, accelerations, any
+    hash function), every block that is returned decodes, with NO history, to the input of its own call -/
+theorem history_spec (hashOf : Array UInt8 → Bool → Nat → Nat) : ∀ (calls : List (Array UInt8 × Int × Nat × Nat)) (S : RState), J S →
+    ∀ k (hk : k < calls.length) blk, (history hashOf S calls)[k]? = some (some blk) → decode [] blk = some (calls[k]).1.toList := by
+  intro calls
+  induction calls with
+  | nil => intro S _ k hk; simp at hk
+  | cons c rest ih =>
+    intro S hJ k hk blk h
+    obtain ⟨src, acc, cap, bound⟩ := c
+    obtain ⟨j1, j2⟩ := call_spec hashOf S src acc cap bound hJ
+    unfold history at h
+    cases k with
+    | zero =>
+      simp only [List.getElem?_cons_zero, Option.some.injEq] at h
+      exact j2 blk h
+    | succ k' =>
+      simp only [List.getElem?_cons_succ] at h
+      simp only [List.getElem_cons_succ]
+      exact ih _ j1 k' (by simp only [List.length_cons] at hk; omega) blk h
+
+theorem J_init : J {} := ⟨fun i => by simp [Array.getD], fun _ => rfl⟩
+
 end LZ4V.Model.FastR
